@@ -4,6 +4,7 @@ import (
 	"encoding/json"
 	"fmt"
 	"github.com/Trendyol/go-dcp/logger"
+	"github.com/couchbase/gocbcore/v10/memd"
 	"reflect"
 	"strings"
 	"time"
@@ -40,6 +41,8 @@ type BurstParams struct {
 	// HoldWait: adversarial delay of the stream's wait() goroutines (the one of the session being closed is
 	// woken by the close token) until the rebalance has finished
 	HoldWait bool `json:"hold_wait"`
+	// FailedSave: the Commit() that precedes the burst fails (the store rejects one write)
+	FailedSave bool `json:"failed_save"`
 }
 
 type notif struct {
@@ -99,10 +102,15 @@ func init() {
 				{Scenario: "c12_afterrebalance", Params: mustJSON(AfterRebParams{CloseFault: true}), Bound: 0, Shards: 8, Note: "a close-stream request of the rebalance fails (lost reply / dead connection with a transient stream end): the rebalance does not terminate the client"},
 				{Scenario: "c02_sessions", Params: mustJSON(SessionsParams{ReadOnly: true}), Bound: 0, Shards: 2, Note: "re-open after a rebalance resumes from the checkpoints stored NOW (read-only mode: they were advanced by their owners since the process started), for vBuckets that stay in the range and for gained ones"},
 				{Scenario: "c02_sessions", Params: mustJSON(SessionsParams{}), Bound: 0, Shards: 2, Note: "the same with this member's own saves between the rebalances"},
+				{Scenario: "c16_race", Params: mustJSON(ScrapeRaceParams{Against: "rebalance"}), Bound: 2, Shards: 4, Note: "a metrics scrape overlapping the rebalance (prometheus runs Collect on goroutines without recover): it never terminates the client"},
+				{Scenario: "c16_race", Params: mustJSON(ScrapeRaceParams{Against: "rebalance", Inject: true}), Bound: 1, Shards: 8, Note: "the same with the scrape started at every scheduling point of the rebalance"},
+				{Scenario: "c05_windowcommit", Params: mustJSON(struct{}{}), Bound: 0, Note: "a Commit() inside the rebalance window (couchbase and file metadata, with / without a late acknowledgement): the re-open that ends the rebalance resumes from the stored checkpoints and does not terminate the client"},
 				{Scenario: "c10_cb", Params: mustJSON(CBParams{Initial: 3, Event: "replace", Perms: 1}), Bound: 0, Shards: 4, Note: "couchbase membership: a replaced peer changes the set of instances but not this member's number or the group size - nothing is announced, the stream is not interrupted"},
 				{Scenario: "c10_register", Params: mustJSON(struct{}{}), Bound: 0, Note: "leader-assigned membership: a numbering that repeats the one in effect (e.g. from the new leader after a fail-over) is not announced, so it causes no interruption"},
 				{Scenario: "c11_burst", Params: mustJSON(BurstParams{Membership: "static", MaxN: 1, Mitigation: true}), Bound: 0, Shards: 2, Note: "events waiting at the rollback-mitigation gate when the rebalance closes the stream"},
 				{Scenario: "c11_burst", Params: mustJSON(BurstParams{Membership: "dynamic", MaxN: 1, Mitigation: true}), Bound: 0, Shards: 2, Note: "events waiting at the rollback-mitigation gate when the rebalance closes the stream"},
+				{Scenario: "c11_burst", Params: mustJSON(BurstParams{Membership: "static", MaxN: 1, FailedSave: true}), Bound: 0, Shards: 2, Note: "a save that failed earlier in the session (the store rejected a write): the next rebalance still closes and re-opens the stream once"},
+				{Scenario: "c11_burst", Params: mustJSON(BurstParams{Membership: "dynamic", MaxN: 1, FailedSave: true}), Bound: 0, Shards: 2},
 				{Scenario: "c11_burst", Params: mustJSON(BurstParams{Membership: "static", MaxN: 1, CloseFault: true}), Bound: 0, Shards: 2, Note: "the reply to one close-stream request of the rebalance is lost"},
 				{Scenario: "c11_burst", Params: mustJSON(BurstParams{Membership: "dynamic", MaxN: 1, CloseFault: true}), Bound: 0, Shards: 2, Note: "the reply to one close-stream request of the rebalance is lost"},
 			}
@@ -185,7 +193,20 @@ func burstMain(p BurstParams) {
 		vrt.Failf("harness: %d events before the burst", len(e.Cons.Events))
 		return
 	}
+	if p.FailedSave {
+		// the commit before the burst is rejected by the store (one write answered with a temporary failure): the
+		// session carries on with a failed save behind it
+		failNext := true
+		c.Fault = func(r *gocbcore.SimRequest) gocbcore.SimAnswer {
+			if failNext && r.Kind == "mutatein" {
+				failNext = false
+				return gocbcore.SimAnswer{Kind: "err", Err: &gocbcore.KeyValueError{InnerError: gocbcore.ErrTemporaryFailure, StatusCode: memd.StatusTmpFail}}
+			}
+			return gocbcore.SimAnswer{}
+		}
+	}
 	e.D.Commit()
+	c.Fault = nil
 	a := newAPI(e.Cfg, e.D.GetClient(), dcpStream(e), []prometheus.Collector{}, e.bus(), dcp.VerifDiscovery(e.D))
 	readyIdx := len(hlog)
 	readyOrder := order
